@@ -225,6 +225,92 @@ Definition check_name (ts : list N) : list N :=
   | None => v_bad
   end.
 
+(* ---- kind 7: a whole fragment against the model's fragment parser -------- *)
+Fixpoint tok_full (fuel : nat) (ts : list N) : option (yaml * list N) :=
+  match fuel with
+  | O => None
+  | S k =>
+    match ts with
+    | 0 :: r => Some (YReal [], r)
+    | 1 :: r => Some (YInteger 0, r)
+    | 2 :: r => match tok_bytes r with Some (s, r2) => Some (YString s, r2) | None => None end
+    | 3 :: b :: r => Some (YBoolean (negb (b =? 0)), r)
+    | 4 :: n :: r =>
+      if n <=? lenN r then
+        match tok_many (tok_full k) (N.to_nat n) r with Some (xs, r2) => Some (YArray xs, r2) | None => None end
+      else None
+    | 5 :: n :: r =>
+      if n <=? lenN r then
+        match tok_many (fun t => match tok_full k t with
+                                 | Some (key, r1) => match tok_full k r1 with
+                                                     | Some (v, r2) => Some ((key, v), r2)
+                                                     | None => None
+                                                     end
+                                 | None => None
+                                 end) (N.to_nat n) r with
+        | Some (kvs, r2) => Some (YHash kvs, r2)
+        | None => None
+        end
+      else None
+    | 7 :: r => Some (YNull, r)
+    | 8 :: r => Some (YBadValue, r)
+    | _ => None
+    end
+  end.
+
+Definition tok_oracle_entry (ts : list N) : option ((list N * option ip) * list N) :=
+  match tok_bytes ts with
+  | Some (key, r) => match tok_oracle r with Some (res, r2) => Some ((key, res), r2) | None => None end
+  | None => None
+  end.
+Definition table_ip (tbl : list (list N * option ip)) : list N -> option ip :=
+  fun q => match find (fun e => str_eqb (fst e) q) tbl with Some e => snd e | None => None end.
+
+Definition expect_fragment (f : N) (ipp : list N -> option ip) (y : yaml) : list N :=
+  match f with
+  | 1 => match dns_route ipp y with
+         | Ok (Some (t, n)) => [0; 1; t; n]
+         | Ok None => [1]                       (* parse_array: "Cannot have a Null value in array" *)
+         | Err _ => [1]
+         | Panic _ => [2]
+         end
+  | 2 => match ra_prefix ipp y with Ok p => [0; 1; p_len p] | Err _ => [1] | Panic _ => [2] end
+  | _ => match pref64 ipp y with
+         | Ok (Some p) => [0; 1; p_len p]
+         | Ok None => [0; 0]
+         | Err _ => [1]
+         | Panic _ => [2]
+         end
+  end.
+
+Definition check_fragment (ts : list N) : list N :=
+  match ts with
+  | f :: r =>
+    match tok_full (S (List.length r)) r with
+    | Some (y, r) =>
+      match tok_list tok_oracle_entry r with
+      | Some (tbl, impl) =>
+        let model := expect_fragment f (table_ip tbl) y in
+        match impl with
+        | [2] => v_viol 1
+        | [3] => v_ok 40
+        | [1] => if toks_eqb model [1] then v_ok (44 + f) else v_diff model
+        | 0 :: rest =>
+          match rev rest with
+          | sv :: vals_rev =>
+            if 10 <=? sv then v_viol (serve_pred sv)
+            else if toks_eqb model (0 :: rev vals_rev) then v_ok (40 + f) else v_diff model
+          | [] => v_bad
+          end
+        | _ => v_bad
+        end
+      | None => v_bad
+      end
+    | None => v_bad
+    end
+  | [] => v_bad
+  end.
+
 (* kind 6: a document the harness did not run because the loader (apply-range,
    apply-subnet) or every DHCP request (`addresses`) would materialise more
    than 2^17 addresses one by one: known-finding class 1 (memory exhaustion,
@@ -250,5 +336,6 @@ Definition check_C19 (ts : list N) : list N :=
   | 4 :: r => check_scalar r
   | 5 :: r => check_name r
   | 6 :: r => match tok_bytes r with Some (_, l) => check_screened l | None => v_bad end
+  | 7 :: r => check_fragment r
   | _ => v_bad
   end.
